@@ -82,6 +82,10 @@ CLAIMS = {
          "TLA+ spec Amount on exact limb arithmetic: RN53 (the one permitted float rounding), round-half-away, correctly rounded quotient with sticky bit, decimal text parsed and cross-multiplied; MC_Amount cross-checks the definitions on a toy range; NewAmount / ToUnit / ToBCH round trip / Format / String / MulF64 of the real code on every small satoshi count and its half-way neighbours, power-of-two/ten neighbourhoods, the cap, double-rounding corners, subnormals, NaN/Inf and random values are judged by TLC trace validation",
          "TLC trace validation against exact-arithmetic definitions plus a small-scope model check of those definitions",
          "IEEE-754 decomposition logged by the harness; exploration structured + random, not exhaustive"),
+ "C19": ("DESIGN.md §4 C19",
+         "TLA+ spec CoinSet: selectors as relations (distinct offered coins, MaxInputs, total = target or >= target+MinChange; shortest qualifying prefix of the list / of some descending order with free ties; average value-age for min-priority) and the coin set as a sequence; MC_CoinSet checks the relations are satisfiable exactly when a qualifying prefix exists over all small coin lists and generates every push/pop/shift/read history of bounded depth; all four real selectors on exhaustive small lists and random lists up to 12 coins, and real coin-set histories, are judged by TLC trace validation",
+         "small-scope model checking of the relations plus TLC trace validation",
+         "pointer identity of coins; no completeness demanded of the min-priority selector"),
 }
 
 NOT_YET = "check not built yet in this round; see DESIGN.md for the planned TLA+ model"
